@@ -1,16 +1,24 @@
 (** C38 — Incremental indexing skips only up-to-date repositories.
 
     Model: Model/Incremental.v (Options.GetHash/HashOptions, Options.IndexState, IncrementalSkipIndexing,
-    Repository.MergeMutable, the repository record a build stores). The lists [hashed_fields],
-    [options_fields], [read_versions], [int_defaults] are GENERATED from the checked tree on every run
+    Repository.MergeMutable, the repository record a build stores). The hash program [hash_prog] (every write of
+    GetHash into the hasher: field, format, if-guard, and HOW the value is written), [options_fields],
+    [read_versions], [int_defaults] are GENERATED from the checked tree on every run
     (Generated/HashFields.v, translator/hashfields).
 
-    The options hash is abstract: [H] maps the tuple of (normalised) hashed option values to a hash; every theorem
-    that needs it assumes [H] injective (SHA-1 collision-freeness + unambiguous concatenation) — an explicit
-    hypothesis, not an axiom.
+    What GetHash hashes is modelled as the ORDERED list of its write tokens (format + values; a slice such as
+    LargeFiles element by element in slice order — its order is significant: Options.IgnoreSizeMax lets the LAST matching
+    pattern win; a map such as LanguageMap entry by entry in key order — a Go map has no order, [VMap] keeps it sorted).
+    The hash of that token list is abstract: [H]; every theorem that needs it assumes [H] injective (SHA-1
+    collision-freeness + unambiguous concatenation of the formatted writes) — an explicit hypothesis, not an axiom.
+    That equal token lists force equal effective values of every hashed field is PROVED (Proofs/Incremental.v:
+    get_hash_eq_fields) for any program passing the boolean check [prog_ok], which is evaluated on the generated
+    program below ([hash_prog_ok]): it fails as soon as a write is not of a recognised value-preserving form
+    (e.g. a sorted / de-duplicated / lower-cased copy of a list is hashed, or a map is ranged in random order).
 
     [eff o f] below is the value of option [f] as the builder uses it: TrigramMax 0 means the SetDefaults default. *)
-From ZV Require Import Lib.Base Model.Incremental Proofs.Incremental Generated.HashFields.
+From ZV Require Import Lib.Base Model.HashProg Model.Incremental Proofs.Incremental Generated.HashFields.
+From ZV Require Import Model.HashBytes Proofs.HashBytes Proofs.HashBytesProg.
 From Coq Require Import String.
 Open Scope string_scope.
 
@@ -54,19 +62,25 @@ Print Assumptions C38_every_option_classified.
 Lemma content_affecting_hashed : incl content_affecting hashed_fields.
 Proof. apply forallb_existsb_incl. vm_compute. reflexivity. Qed.
 
+(** The generated hash program writes every field in a recognised, value-preserving form (no FUnknown / GUnknown,
+    no unrecognised statement in GetHash), the "off" values of every guard are one effective value, and the writes
+    of different items cannot be confused. *)
+Lemma hash_prog_ok : prog_ok normed_fields int_defaults hash_prog hash_prog_unrecognised = true.
+Proof. vm_compute. reflexivity. Qed.
+
 Section WithHash.
   Variable hashT : Type.
   Variable heqb : hashT -> hashT -> bool.
   Hypothesis heqb_spec : forall a b, heqb a b = true <-> a = b.
-  Variable H : list (option val) -> hashT.
+  Variable H : list token -> hashT.
   Hypothesis H_inj : forall a b, H a = H b -> a = b.
 
-  Definition get_hash' := get_hash hashT H normed_fields int_defaults hashed_fields.
+  Definition get_hash' := get_hash hashT H hash_prog.
   Definition eff (o : opts) (f : string) : option val := option_map (norm normed_fields int_defaults f) (Incremental.get o f).
   Definition state (o2 : opts) (d : disk hashT) (desc : repo hashT) : istate :=
     index_state_with hashT heqb read_versions (get_hash' o2) d desc.
   (** every live record of the requested name in the shard was written by a build with options [o1] *)
-  Definition built_with' repos desc o1 := built_with hashT H normed_fields int_defaults hashed_fields repos desc o1.
+  Definition built_with' repos desc o1 := built_with hashT H hash_prog repos desc o1.
 
   Lemma skip_sound o1 o2 fmt feat repos desc :
     built_with' repos desc o1 ->
@@ -74,8 +88,8 @@ Section WithHash.
     forall f, In f content_affecting -> eff o1 f = eff o2 f.
   Proof.
     intros Hb Hs f Hf.
-    exact (no_reindex_sound hashT heqb heqb_spec H H_inj read_versions normed_fields int_defaults hashed_fields
-             o1 o2 fmt feat repos desc Hb Hs f (content_affecting_hashed f Hf)).
+    exact (no_reindex_sound hashT heqb heqb_spec H H_inj read_versions normed_fields int_defaults hash_prog
+             hash_prog_unrecognised hash_prog_ok o1 o2 fmt feat repos desc Hb Hs f (content_affecting_hashed f Hf)).
   Qed.
 End WithHash.
 
@@ -84,7 +98,7 @@ End WithHash.
     repository were written by a build with options [o1], then every content-affecting option has the same
     effective value in [o1] and [o2]. For ALL option sets, descriptions and shard contents. *)
 Theorem C38_skip_sound :
-  forall (hashT : Type) (heqb : hashT -> hashT -> bool) (H : list (option val) -> hashT),
+  forall (hashT : Type) (heqb : hashT -> hashT -> bool) (H : list token -> hashT),
     (forall a b, heqb a b = true <-> a = b) -> (forall a b, H a = H b -> a = b) ->
   forall o1 o2 fmt feat repos desc,
     built_with' hashT H repos desc o1 ->
@@ -96,15 +110,15 @@ Print Assumptions C38_skip_sound.
 (** (2) Contrapositive, as the property states it: changing any content-affecting option causes a re-index
     (the state is neither equal nor meta-mismatch). *)
 Theorem C38_changed_option_reindexes :
-  forall (hashT : Type) (heqb : hashT -> hashT -> bool) (H : list (option val) -> hashT),
+  forall (hashT : Type) (heqb : hashT -> hashT -> bool) (H : list token -> hashT),
     (forall a b, heqb a b = true <-> a = b) -> (forall a b, H a = H b -> a = b) ->
   forall o1 o2 fmt feat repos desc f,
     built_with' hashT H repos desc o1 -> In f content_affecting -> eff o1 f <> eff o2 f ->
     state hashT heqb H o2 (DShard fmt feat repos) desc <> SEqual /\ state hashT heqb H o2 (DShard fmt feat repos) desc <> SMeta.
 Proof.
   intros hashT heqb H Hs Hi o1 o2 fmt feat repos desc f Hb Hf Hne.
-  exact (hashed_change_reindexes hashT heqb Hs H Hi read_versions normed_fields int_defaults hashed_fields
-           o1 o2 fmt feat repos desc f Hb (content_affecting_hashed f Hf) Hne).
+  exact (hashed_change_reindexes hashT heqb Hs H Hi read_versions normed_fields int_defaults hash_prog
+           hash_prog_unrecognised hash_prog_ok o1 o2 fmt feat repos desc f Hb (content_affecting_hashed f Hf) Hne).
 Qed.
 Print Assumptions C38_changed_option_reindexes.
 
@@ -149,32 +163,87 @@ Print Assumptions C38_metadata_only_no_reindex.
     are option sets differing exactly there for which a fresh index (current format/feature version) is "equal".
     (This is how TrigramMax / ScipCTagsPath / LanguageMap were skipped before the fix of /repo.) *)
 Theorem C38_unhashed_option_not_protected :
-  forall (hashT : Type) (heqb : hashT -> hashT -> bool) (H : list (option val) -> hashT),
+  forall (hashT : Type) (heqb : hashT -> hashT -> bool) (H : list token -> hashT),
     (forall a b, heqb a b = true <-> a = b) ->
   forall f v1 v2, ~ In f hashed_fields -> v1 <> v2 ->
     exists o1 o2 desc, Incremental.get o1 f = Some v1 /\ Incremental.get o2 f = Some v2 /\
-      state hashT heqb H o2 (build_disk hashT H normed_fields int_defaults hashed_fields index_format_version feature_version o1 desc) desc = SEqual.
+      state hashT heqb H o2 (build_disk hashT H hash_prog index_format_version feature_version o1 desc) desc = SEqual.
 Proof.
   intros hashT heqb H Hs f v1 v2 Hn Hne.
-  apply (unhashed_field_not_protected hashT heqb Hs H read_versions normed_fields int_defaults hashed_fields f v1 v2); auto.
+  apply (unhashed_field_not_protected hashT heqb Hs H read_versions hash_prog f v1 v2); auto.
 Qed.
 Print Assumptions C38_unhashed_option_not_protected.
 
-(** ---- Non-vacuity. Concrete hash: the hashed tuple itself (H = identity, injective). *)
-Definition xH := fun l : list (option val) => l.
-Definition xstate := state (list (option val)) id_hash_eqb xH.
-Definition xdesc (ver url : str) : repo (list (option val)) :=
+(** (7) LIST-VALUED OPTIONS: "equal"/"meta-mismatch" imply the LargeFiles pattern LISTS are equal — same patterns in the
+    same order (the order decides which pattern wins in IgnoreSizeMax) — and the LanguageMap maps are equal. *)
+Theorem C38_skip_sound_lists :
+  forall (hashT : Type) (heqb : hashT -> hashT -> bool) (H : list token -> hashT),
+    (forall a b, heqb a b = true <-> a = b) -> (forall a b, H a = H b -> a = b) ->
+  forall o1 o2 fmt feat repos desc,
+    built_with' hashT H repos desc o1 ->
+    state hashT heqb H o2 (DShard fmt feat repos) desc = SEqual \/ state hashT heqb H o2 (DShard fmt feat repos) desc = SMeta ->
+    Incremental.get o1 "LargeFiles" = Incremental.get o2 "LargeFiles" /\
+    Incremental.get o1 "LanguageMap" = Incremental.get o2 "LanguageMap".
+Proof.
+  intros hashT heqb H Hs Hi o1 o2 fmt feat repos desc Hb Hst.
+  pose proof (skip_sound hashT heqb Hs H Hi o1 o2 fmt feat repos desc Hb Hst) as Hf.
+  assert (forall f o, in_strs f normed_fields = false -> eff o f = Incremental.get o f) as Hid.
+  { intros f o Hn. unfold eff. destruct (Incremental.get o f) as [v|]; [|reflexivity]. simpl.
+    rewrite norm_not_normed by exact Hn. reflexivity. }
+  split.
+  - rewrite <- !(Hid "LargeFiles") by (vm_compute; reflexivity). apply Hf. vm_compute. tauto.
+  - rewrite <- !(Hid "LanguageMap") by (vm_compute; reflexivity). apply Hf. vm_compute. tauto.
+Qed.
+Print Assumptions C38_skip_sound_lists.
+
+(** (8) DOWN TO THE BYTES. The hash is SHA-1 of the bytes GetHash writes: [sha (render_all qbody tokens)], where
+    [render_all] renders the generated write tokens as fmt.Appendf does (raw, %t, %d, %q of a string and of a []string,
+    literal text of the format strings; Model/HashBytes.v). The concatenated encoding itself is PROVED injective
+    (Proofs/HashBytes.v: enc_inj — it starts with an unterminated raw string, so the proof determines every component
+    from the right end), for the program generated from the checked tree (Proofs/HashBytesProg.v: hash_bytes_enc).
+    Hypotheses left: SHA-1 is collision-free, and two facts about strconv.Quote (its output is a double quote, a body
+    [qbody s], a double quote): it is injective, and a double quote inside the body is always preceded by a backslash.
+    "_partial": strconv.Quote itself is not modelled, and option sets are the typed records [hopts] (every hashed
+    field present with its Go type), not arbitrary association lists. *)
+Theorem C38_skip_sound_bytes_partial :
+  forall (hashT : Type) (heqb : hashT -> hashT -> bool) (sha : option bytes -> hashT) (qbody : str -> bytes),
+    (forall a b, heqb a b = true <-> a = b) ->
+    (forall a b, sha a = sha b -> a = b) ->
+    (forall a b, qbody a = qbody b -> a = b) ->
+    (forall s pre post, qbody s = (pre ++ 34%N :: post)%list -> exists pre', pre = (pre' ++ [92%N])%list) ->
+  forall r1 r2 fmt feat repos desc,
+    built_with' hashT (fun ts => sha (render_all qbody ts)) repos desc (to_opts r1) ->
+    state hashT heqb (fun ts => sha (render_all qbody ts)) (to_opts r2) (DShard fmt feat repos) desc = SEqual \/
+    state hashT heqb (fun ts => sha (render_all qbody ts)) (to_opts r2) (DShard fmt feat repos) desc = SMeta ->
+    forall f, In f content_affecting -> eff (to_opts r1) f = eff (to_opts r2) f.
+Proof.
+  intros hashT heqb sha qbody Hs Hsha Hqi Hqe r1 r2 fmt feat repos desc Hb Hst f Hf.
+  destruct (state_no_reindex_inv hashT heqb Hs read_versions _ _ _ Hst)
+    as (f1 & f2 & rs & r & Hd & _ & Hfd & Hh & _ & _).
+  inversion Hd. subst rs f1 f2. destruct (found_some _ _ _ _ Hfd) as (Hin & _ & Hn).
+  rewrite (Hb r Hin Hn) in Hh. unfold get_hash', Incremental.get_hash in Hh. apply Hsha in Hh.
+  apply (hash_bytes_inj qbody Hqi Hqe) in Hh.
+  exact (get_hash_eq_fields (list token) (fun x => x) (fun a b E => E) normed_fields int_defaults hash_prog
+           hash_prog_unrecognised hash_prog_ok (to_opts r1) (to_opts r2) Hh f (content_affecting_hashed f Hf)).
+Qed.
+Print Assumptions C38_skip_sound_bytes_partial.
+
+(** ---- Non-vacuity. Concrete hash: the token list itself (H = identity, injective). *)
+Definition xH := fun l : list token => l.
+Definition xstate := state (list token) id_hash_eqb xH.
+Definition xdesc (ver url : str) : repo (list token) :=
   mkRepo 7%N [114]%N (Some [([72]%N, ver)]) None url [] [] [] [] false.
-Definition xopts (tm : Z) (scip : str) : opts :=
-  [("SizeMax", VInt 1000); ("TrigramMax", VInt tm); ("LargeFiles", VStrs []); ("DisableCTags", VBool false);
+Definition xopts_l (tm : Z) (scip : str) (lf : list str) : opts :=
+  [("SizeMax", VInt 1000); ("TrigramMax", VInt tm); ("LargeFiles", VStrs lf); ("DisableCTags", VBool false);
    ("CTagsPath", VStr [99]%N); ("ScipCTagsPath", VStr scip); ("CTagsMustSucceed", VBool false); ("LanguageMap", VMap [])].
+Definition xopts (tm : Z) (scip : str) : opts := xopts_l tm scip [].
 Definition xdisk (o : opts) (ver url : str) :=
-  build_disk (list (option val)) xH normed_fields int_defaults hashed_fields index_format_version feature_version o (xdesc ver url).
+  build_disk (list token) xH hash_prog index_format_version feature_version o (xdesc ver url).
 
 (* the hypotheses of C38_skip_sound are satisfiable with the state really "equal": same options, TrigramMax 0 = default *)
 Example C38_nonvacuous_equal :
   xstate (xopts 0 []) (xdisk (xopts 20000 []) [49]%N []) (xdesc [49]%N []) = SEqual
-  /\ built_with' (list (option val)) xH [build_record (list (option val)) xH normed_fields int_defaults hashed_fields (xopts 20000 []) (xdesc [49]%N [])] (xdesc [49]%N []) (xopts 20000 []).
+  /\ built_with' (list token) xH [build_record (list token) xH hash_prog (xopts 20000 []) (xdesc [49]%N [])] (xdesc [49]%N []) (xopts 20000 []).
 Proof. split; [vm_compute; reflexivity|]. intros r [<-|[]] _. reflexivity. Qed.
 (* changed TrigramMax / ScipCTagsPath: option-mismatch; changed branch version: content-mismatch; changed URL: meta-mismatch *)
 Example C38_nonvacuous_states :
@@ -185,6 +254,36 @@ Example C38_nonvacuous_states :
   eff (xopts 50 []) "TrigramMax" <> eff (xopts 20000 []) "TrigramMax" /\
   eff (xopts 0 []) "TrigramMax" = eff (xopts 20000 []) "TrigramMax".
 Proof. vm_compute. repeat split; try reflexivity. discriminate. Qed.
+(* the ORDER of LargeFiles is hashed: the same two patterns ("a", "!a") in the other order are an option-mismatch,
+   in the same order "equal" *)
+Example C38_nonvacuous_largefiles_order :
+  xstate (xopts_l 20000 [] [[33; 97]; [97]]%N) (xdisk (xopts_l 20000 [] [[97]; [33; 97]]%N) [49]%N []) (xdesc [49]%N []) = SOption /\
+  xstate (xopts_l 20000 [] [[97]; [33; 97]]%N) (xdisk (xopts_l 20000 [] [[97]; [33; 97]]%N) [49]%N []) (xdesc [49]%N []) = SEqual.
+Proof. vm_compute. split; reflexivity. Qed.
 (* (6) is not vacuous: there are fields outside the hash (e.g. Parallelism) *)
 Example C38_nonvacuous_unhashed : ~ In "Parallelism" hashed_fields /\ In "Parallelism" options_fields.
 Proof. split; [|vm_compute; tauto]. vm_compute. intros Hin. repeat (destruct Hin as [Hin|Hin]; [discriminate Hin|]). exact Hin. Qed.
+
+(* (8) is not vacuous: a quoting function satisfying both hypotheses exists (every byte doubled after a backslash —
+   not Go's, but it shows the hypotheses are consistent), and the rendered bytes of a concrete option record are as Go
+   prints them: CTagsPath "ct", true, 1000, ["a" "b"], false, trigramMax=50, scipCTagsPath="s", languageMap="go":3 *)
+Definition xqbody (s : str) : bytes := flat_map (fun c => [92%N; c]) s.
+Example C38_nonvacuous_quote_hyps :
+  (forall a b, xqbody a = xqbody b -> a = b) /\
+  (forall s pre post, xqbody s = (pre ++ 34%N :: post)%list -> exists pre', pre = (pre' ++ [92%N])%list).
+Proof.
+  split.
+  - intros a. induction a as [|x a IH]; intros [|y b] E; simpl in E; try discriminate; [reflexivity|].
+    injection E as Hx E. f_equal; auto.
+  - intros s. induction s as [|x s IH]; intros pre post E; simpl in E.
+    + destruct pre; discriminate E.
+    + destruct pre as [|p0 [|p1 pre]]; simpl in E.
+      * discriminate E.
+      * injection E as E0 E1. subst p0. exists []. reflexivity.
+      * injection E as E0 E1 E. subst p0 p1. destruct (IH _ _ E) as [pre' ->]. exists (92%N :: x :: pre'). reflexivity.
+Qed.
+Example C38_nonvacuous_bytes :
+  hash_bytes (fun s => s) hash_prog
+    (to_opts (mkHopts [99; 116]%N true 1000 [[97]; [98]]%N false 50 [115]%N [([103; 111]%N, 3%N)])) =
+  Some (bytes_of_string "cttrue1000[""a"" ""b""]falsetrigramMax=50scipCTagsPath=""s""languageMap=""go"":3").
+Proof. vm_compute. reflexivity. Qed.
